@@ -53,7 +53,7 @@ def _retarget(t, db):
             t["else"] += db
 
 
-def inlinable(facts, t, stack, want=None):
+def inlinable(facts, t, stack, want=None, closures=False):
     if t.get("k") != "call" or not t.get("resl") or is_noise(t):
         return None
     ck = t.get("res")
@@ -63,6 +63,16 @@ def inlinable(facts, t, stack, want=None):
     if t.get("synthetic_closure_call"):
         if raw.get("kind") != "Closure" or ck in stack or int(raw["argc"]) != len(t.get("args", [])):
             return None
+        return ck
+    if raw.get("kind") == "Closure":
+        # a local closure called directly: `let f = |x| ..; f(a)` is Fn*::call*(f, (a,)) resolved to the closure body
+        decl = t.get("decl") or ""
+        if not closures or ck in stack or len(t.get("args", [])) != 2 or not decl.split("::")[-1] in ("call", "call_mut", "call_once"):
+            return None
+        pl = t["args"][1].get("m") or t["args"][1].get("c")
+        if pl is None:
+            return None
+        t["rust_call"] = True
         return ck
     if raw.get("kind") not in ("Fn", "AssocFn"):
         return None
@@ -449,7 +459,7 @@ def inline(facts, fn, depth=2, want=None, expand=False):
                 # the block now ends in a switch / goto; synthetic closure calls sit in the new blocks
                 b += 1
                 continue
-        ck = inlinable(facts, t, stack_of[b], want) if (lv < depth or t.get("synthetic_closure_call")) and not blk.get("cleanup") else None
+        ck = inlinable(facts, t, stack_of[b], want, closures=expand) if (lv < depth or t.get("synthetic_closure_call")) and not blk.get("cleanup") else None
         if ck is None:
             b += 1
             continue
@@ -490,8 +500,15 @@ def inline(facts, fn, depth=2, want=None, expand=False):
         if glue is not None:
             _thread_returns(d, blocks, db, db + nb, dl, glue, level, stack_of)
         # argument passing + jump
-        for i, a in enumerate(t.get("args", [])):
-            blk["s"].append({"k": "assign", "p": {"l": dl + 1 + i, "p": []}, "r": {"k": "use", "o": copy.deepcopy(a)}, "l": t.get("l"), "inl_arg": ck})
+        if t.get("rust_call"):
+            blk["s"].append({"k": "assign", "p": {"l": dl + 1, "p": []}, "r": {"k": "use", "o": copy.deepcopy(t["args"][0])}, "l": t.get("l"), "inl_arg": ck})
+            tup = t["args"][1].get("m") or t["args"][1].get("c")
+            for i in range(int(raw["argc"]) - 1):
+                src = {"l": tup["l"], "p": list(tup["p"]) + [{"f": i, "n": str(i), "t": None}]}
+                blk["s"].append({"k": "assign", "p": {"l": dl + 2 + i, "p": []}, "r": {"k": "use", "o": {"m": src}}, "l": t.get("l"), "inl_arg": ck})
+        else:
+            for i, a in enumerate(t.get("args", [])):
+                blk["s"].append({"k": "assign", "p": {"l": dl + 1 + i, "p": []}, "r": {"k": "use", "o": copy.deepcopy(a)}, "l": t.get("l"), "inl_arg": ck})
         blk["t"] = {"k": "goto", "t": db, "l": t.get("l"), "inl_call": ck, "x": t.get("x")}
         inlined.append(ck)
         b += 1
